@@ -87,16 +87,16 @@ pub fn gen_c06(tier: &str, seed: u64, out: &mut dyn FnMut(Value)) {
     }
     // forward, self, unknown and disabled references: the compiler must reject them
     let cfg = Cfg { bad_ref_prob: (1, 4), disabled_prob: (1, 5), max_rules: 5, n_events: 3, ..Cfg::default() };
-    gen_random(&mut rng, &cfg, if thorough { 20000 } else { 1500 }, "bad / disabled references", (1, 8), out);
+    gen_random(&mut rng, &cfg, if thorough { 100000 } else { 6000 }, "bad / disabled references", (1, 8), out);
     // random larger DAGs
     let cfg = Cfg { max_rules: 10, dep_prob: (2, 3), n_events: 8, err_ops: false, ..Cfg::default() };
-    gen_random(&mut rng, &cfg, if thorough { 20000 } else { 1000 }, "random DAG up to 10 rules", (1, 12), out);
+    gen_random(&mut rng, &cfg, if thorough { 100000 } else { 4000 }, "random DAG up to 10 rules", (1, 12), out);
 }
 
 /// C07: arbitrary types, severities 0..255, overlapping / empty / mixed-case sets x all subsets matching
 pub fn gen_c07(tier: &str, seed: u64, out: &mut dyn FnMut(Value)) {
     let mut rng = Rng::new(seed);
-    let n_sets = if tier == "thorough" { 4000 } else { 250 };
+    let n_sets = if tier == "thorough" { 20000 } else { 1000 };
     for _ in 0..n_sets {
         let n = 1 + rng.below(6);
         let cfg = Cfg { match_on: false, ..Cfg::default() };
@@ -118,7 +118,7 @@ pub fn gen_c07(tier: &str, seed: u64, out: &mut dyn FnMut(Value)) {
     // reported rules that are also used as dependencies of other reported rules (their contribution must not be
     // lost or counted twice), with metadata and high severities
     let cfg = Cfg { max_rules: 6, dep_prob: (1, 2), match_on: false, err_ops: false, n_events: 8, ..Cfg::default() };
-    gen_random(&mut rng, &cfg, if tier == "thorough" { 8000 } else { 600 }, "rule sets with dependencies among reported rules", (0, 1), out);
+    gen_random(&mut rng, &cfg, if tier == "thorough" { 40000 } else { 2400 }, "rule sets with dependencies among reported rules", (0, 1), out);
 }
 
 /// C10: any subset of operands made to fail at every position; DAG levels
@@ -130,7 +130,7 @@ pub fn gen_c10(tier: &str, seed: u64, out: &mut dyn FnMut(Value)) {
     let fields: Vec<Vec<String>> = (0..3).map(fpath).collect();
     let events = assignments(&fields, &vals);
     let opn = ["$a", "$ab", "$b"];
-    let n = if thorough { 6000 } else { 500 };
+    let n = if thorough { 30000 } else { 2000 };
     for _ in 0..n {
         let ops: Vec<(String, Operand)> = (0..3)
             .map(|i| {
@@ -150,13 +150,13 @@ pub fn gen_c10(tier: &str, seed: u64, out: &mut dyn FnMut(Value)) {
     }
     // failures at every level of a dependency graph
     let cfg = Cfg { dep_prob: (1, 2), unknown_operand_prob: (1, 10), max_rules: 6, n_events: 12, ..Cfg::default() };
-    gen_random(&mut rng, &cfg, if thorough { 30000 } else { 2500 }, "rule sets with failing operands", (1, 3), out);
+    gen_random(&mut rng, &cfg, if thorough { 150000 } else { 10000 }, "rule sets with failing operands", (1, 3), out);
 }
 
 /// C12: sequences of events with repeats and interleavings on one engine
 pub fn gen_c12(tier: &str, seed: u64, out: &mut dyn FnMut(Value)) {
     let mut rng = Rng::new(seed);
-    let n = if tier == "thorough" { 15000 } else { 1200 };
+    let n = if tier == "thorough" { 75000 } else { 4800 };
     for _ in 0..n {
         let cfg = Cfg { max_rules: 5, ..Cfg::default() };
         let rules = random_ruleset(&mut rng, &cfg);
@@ -182,7 +182,7 @@ pub fn gen_c12(tier: &str, seed: u64, out: &mut dyn FnMut(Value)) {
 /// C13: S, supersets S+T, and dependency-respecting permutations of S
 pub fn gen_c13(tier: &str, seed: u64, out: &mut dyn FnMut(Value)) {
     let mut rng = Rng::new(seed);
-    let n = if tier == "thorough" { 6000 } else { 500 };
+    let n = if tier == "thorough" { 30000 } else { 2000 };
     for _ in 0..n {
         let cfg = Cfg { max_rules: 5, n_events: 6, ..Cfg::default() };
         let mut rules = random_ruleset(&mut rng, &cfg);
@@ -241,7 +241,7 @@ pub fn gen_c09(tier: &str, seed: u64, out: &mut dyn FnMut(Value)) {
         FieldValue::String("-9223372036854775808".into()), FieldValue::String("0xffffffffffffffff".into()), FieldValue::Some, FieldValue::None,
         FieldValue::Bool(false),
     ];
-    let n = if tier == "thorough" { 20000 } else { 1500 };
+    let n = if tier == "thorough" { 100000 } else { 6000 };
     for _ in 0..n {
         let cfg = Cfg { max_rules: 6, dep_prob: (1, 2), ..Cfg::default() };
         let rules = random_ruleset(&mut rng, &cfg);
